@@ -156,4 +156,7 @@ def exc_categories(e):
              'Error': bitstring.Error, 'IndexError': IndexError, 'ValueError': ValueError,
              'TypeError': TypeError, 'OSError': OSError}
     cats = [name for name in EXC_CATS if isinstance(e, table[name])]
+    if isinstance(e, EOFError):
+        # not a documented category in general (so also 'Internal'); allowed where the specification names it
+        return ['EOFError', 'Internal']
     return cats or ['Internal']
